@@ -24,6 +24,7 @@ type config struct {
 	Long   bool
 	WithST bool
 	Entry  string
+	NoEKU  bool // the checked leaf carries no extended key usage at all
 }
 
 func configs() []config {
@@ -33,7 +34,10 @@ func configs() []config {
 			for _, long := range []bool{false, true} {
 				for _, st := range []bool{false, true} {
 					for _, e := range []string{"validate", "ocsp"} {
-						out = append(out, config{l, ca, long, st, e})
+						out = append(out, config{l, ca, long, st, e, false})
+						if !long {
+							out = append(out, config{l, ca, long, st, e, true})
+						}
 					}
 				}
 			}
@@ -46,6 +50,7 @@ func scenario(c config, behs []string) *sims.Scenario {
 	sc := &sims.Scenario{Len: c.Len, CAKind: c.CAKind, WithST: c.WithST, Entry: c.Entry, CRLRoute: "fetcher"}
 	sh := sims.HTTPShape(len(behs), 0)
 	sh.LongSerial = c.Long
+	sh.NoEKU = c.NoEKU
 	sc.Plans = make([]sims.CertPlan, c.Len)
 	sc.Plans[0] = sims.CertPlan{Shape: sh, OCSP: behs}
 	return sc
